@@ -4,7 +4,10 @@ use crate::common::indices::index_vec;
 use crate::common::{SelectOp, Selection};
 use crate::{Mesh, Point3, SurfacePoint3, UnitVec3, Vector3};
 use itertools::Itertools;
+#[cfg(not(feature = "verif"))]
 use std::collections::{HashMap, HashSet};
+#[cfg(feature = "verif")]
+use crate::verif::{HashMap, HashSet};
 
 pub struct TriangleFilter<'a> {
     mesh: &'a Mesh,
